@@ -2,7 +2,7 @@
 // std BTreeMap is environment: rebound to the sorted-array model (ascending iteration).
 use crate::page_labels::PageLabelStyle;
 
-// @ob id=range_lookup unwind=8 stubs=string_insert,fmt_upper_letters tier=quick timeout=900 bound="up to 3 ranges with arbitrary u32 start pages (distinct or equal: later add_range replaces), arbitrary page index with offset <= 25; letters style, start value 1..=3 (ranges told apart by start value)"
+// @ob id=range_lookup unwind=8 stubs=string_insert,fmt_upper_letters mem=24 tier=quick timeout=900 bound="up to 3 ranges with arbitrary u32 start pages (distinct or equal: later add_range replaces), arbitrary page index with offset <= 25; letters style, start value 1..=3 (ranges told apart by start value)"
 fn range_lookup<const KF: usize>() {
     let k: [u32; 3] = kani::any();
     let st: [u32; 3] = kani::any();
